@@ -237,6 +237,7 @@ class Printer:
         self.membermap = unit.get('membermap', {})
         self.freevars = OrderedDict()       # for fragments: decl id -> (name, ctype, isvec)
         self.fragment = False
+        self.exposed = OrderedDict()
         self.byval_free = set()
         self.freevar_kind = {}
         self._ret_target = None
@@ -871,6 +872,27 @@ class Printer:
             if not init:
                 self.brk('reference without initialiser', v)
             return t + '%s *%s = &%s;\n' % (ct, name, self.e(self.skip(init[0])))
+        if name in self.unit.get('expose', []) and self.fragment:
+            # a local declared inside the fragment whose final value the contract talks about: it becomes an out-parameter
+            self.exposed[name] = ct
+            self.decl_ref[v['id']] = True
+            self.fire('fragment:exposed-local')
+            ref = '(*%s)' % name
+            if isvec:
+                s = t + '%s.size = 0;\n' % ref
+                if init:
+                    c = self.skip(init[0])
+                    cargs = [a for a in c.get('inner', []) if a.get('kind') != 'CXXDefaultArgExpr'] if c.get('kind') == 'CXXConstructExpr' else None
+                    if cargs is not None and len(cargs) == 1 and not self.is_vec_expr(cargs[0]):
+                        fn = '%s_ctor_n' % ct
+                        self.called[fn] += 1
+                        s += t + '%s(&%s, %s);\n' % (fn, ref, self.e(cargs[0]))
+                    elif cargs is not None and len(cargs) == 0:
+                        pass
+                    else:
+                        self.brk('initialiser form of exposed vector', v)
+                return s
+            return t + '%s = %s;\n' % (ref, self.e(self.skip(init[0]))) if init else ''
         if isvec:
             if v.get('nrvo') and self.ret_vec == ct:
                 self.decl_ref[v['id']] = True
